@@ -6,7 +6,7 @@
    spec_pw/spec_ph = published plane dimensions, spec_stride = pad_up pw align,
    plane_bytes = stride * ph, spec_off = documented plane offsets, spec_total = sum of plane_bytes. *)
 From Coq Require Import List ZArith.
-From LJT Require Import lib.PadLemmas gen.GenSubsamp model.Geometry proofs.GeometryProofs.
+From LJT Require Import lib.Sweep lib.PadLemmas gen.GenSubsamp model.Geometry model.YuvCopy proofs.GeometryProofs proofs.YuvCopyProofs.
 Import ListNotations.
 Local Open Scope Z_scope.
 
@@ -55,6 +55,56 @@ Example C20_ex_getSubsamp :
   getSubsamp3 3 1 3 1 3 1 = TJSAMP_444 /\ getSubsamp3 4 1 1 1 1 1 = TJSAMP_411 /\ getSubsamp3 1 4 1 1 1 1 = TJSAMP_441 /\
   getSubsamp3 4 2 1 2 1 2 = TJSAMP_UNKNOWN /\ getSubsamp3 2 2 2 2 2 2 = TJSAMP_UNKNOWN /\ getSubsamp3 2 1 1 1 2 1 = TJSAMP_UNKNOWN.
 Proof. exact ex_getSubsamp. Qed.
+
+(* (6) copy loops of the per-plane functions (model/YuvCopy.v): for every subsampling level, component, image size and EVERY
+   stride (NULL array, 0, positive, negative, shorter than a row) every byte tj3EncodeYUVPlanes8 / tj3DecompressToYUVPlanes8
+   write and tj3DecodeYUVPlanes8 / tj3CompressFromYUVPlanes8 read lies inside the plane's extent, and no row-pointer array is
+   indexed out of range (acc_ok excludes the None outcome); compress: the padded intermediate row holds the plane row *)
+Theorem C20_copy_loops_safe : copy_loops_safe_statement.
+Proof. exact copy_loops_safe_proof. Qed.
+Print Assumptions C20_copy_loops_safe.
+
+(* that extent is exactly the tj3YUVPlaneSize bytes starting at the lowest-addressed row *)
+Theorem C20_extent_is_planesize : forall ulbits szbits strides stride i w h s,
+  valid_abi ulbits szbits -> valid_samp s -> valid_dim w -> valid_dim h -> 0 <= i < ncomp s -> INT_MIN < stride <= INT_MAX ->
+  spec_pw i w s <= INT_MAX -> spec_ph i h s <= INT_MAX ->
+  let e := enc_rowstep strides stride (spec_pw i w s) in
+  let size := Z.abs e * (spec_ph i h s - 1) + spec_pw i w s in
+  tj3YUVPlaneSize ulbits szbits i w (if strides =? 0 then 0 else stride) h s =
+    Val (if ulong_check ulbits size then 0 else size) /\
+  (forall o, in_plane e (spec_pw i w s) (spec_ph i h s) o <-> plane_lo e (spec_ph i h s) <= o < plane_lo e (spec_ph i h s) + size) /\
+  (0 <= e -> plane_lo e (spec_ph i h s) = 0) /\ (e < 0 -> plane_lo e (spec_ph i h s) = (spec_ph i h s - 1) * e).
+Proof. exact extent_is_planesize. Qed.
+Print Assumptions C20_extent_is_planesize.
+
+(* planes packed the tj3YUVBufSize way: accesses to different planes never meet and stay inside the buffer *)
+Theorem C20_packed_planes_disjoint : forall w a h s i j oi oj,
+  valid_samp s -> valid_dim w -> valid_dim h -> valid_align a -> 0 <= i -> i < j -> j < ncomp s ->
+  in_plane (spec_stride i w a s) (spec_pw i w s) (spec_ph i h s) oi ->
+  in_plane (spec_stride j w a s) (spec_pw j w s) (spec_ph j h s) oj ->
+  0 <= spec_off i w a h s + oi /\ spec_off i w a h s + oi < spec_off j w a h s + oj /\
+  spec_off j w a h s + oj < spec_total w a h s.
+Proof. exact packed_planes_disjoint. Qed.
+Print Assumptions C20_packed_planes_disjoint.
+
+(* intermediate buffer of tj3DecompressToYUVPlanes8: rows MAX(iw, pw) wide tile it *)
+Theorem C20_dtp_tmpbuf_rows : forall iw pw th j c, 0 <= iw -> 0 <= pw -> 0 <= j < th -> 0 <= c < Z.max iw pw ->
+  dtp_tmpstep iw pw = Z.max iw pw /\ dtp_tmpsize iw pw th = Z.max iw pw * th /\
+  0 <= j * dtp_tmpstep iw pw + c < dtp_tmpsize iw pw th /\
+  j * dtp_tmpstep iw pw + c < (j + 1) * dtp_tmpstep iw pw.
+Proof. exact dtp_tmpbuf_rows. Qed.
+Print Assumptions C20_dtp_tmpbuf_rows.
+
+Example C20_ex_copy_loops :
+  enc_access 1 (-5) 0 3 2 TJSAMP_444 = Some [0; 1; 2; -5; -4; -3] /\
+  enc_access 0 77 1 5 3 TJSAMP_420 = Some [0; 1; 2; 3; 4; 5] /\
+  dec_access 1 2 0 3 2 TJSAMP_444 = Some [0; 1; 2; 2; 3; 4] /\
+  dtp_usetmpbuf 16 16 TJSAMP_420 1 1 = false /\ dtp_usetmpbuf 17 16 TJSAMP_420 1 1 = true /\
+  dtp_usetmpbuf 8 8 TJSAMP_422 1 8 = true /\ dtp_tmp_geom 0 8 8 TJSAMP_422 1 8 = (2, 1, 2) /\
+  dtp_access 1 0 1 17 16 TJSAMP_420 1 1 = Some (map (fun k => k) (zrange 0 72)) /\
+  cfp_usetmpbuf 16 8 TJSAMP_422 = false /\ cfp_usetmpbuf 9 8 TJSAMP_422 = true /\
+  in_plane (-5) 3 2 (-5) /\ in_plane (-5) 3 2 2 /\ ~ in_plane (-5) 3 2 3.
+Proof. exact ex_copy_loops. Qed.
 
 (* non-vacuity: the hypotheses are satisfiable and the functions compute the published numbers *)
 Example C20_ex_valid_args : valid_samp TJSAMP_420 /\ valid_samp TJSAMP_GRAY /\ valid_samp TJSAMP_411 /\ valid_samp TJSAMP_441 /\
